@@ -31,6 +31,10 @@ func (c *Ctx) MustPass(rule, construct string, from Loc, target ssa.Instruction,
 			c.Ok(rule, construct, target.Pos(), "in %s every consistent path to the target passes: %s (paths avoiding it contradict an earlier test of the same value)", c.P.FnName(fn), what)
 			return true
 		}
+		if ps.Exhausted {
+			c.Unk(rule, construct, target.Pos(), "in %s the path-sensitive search exceeded its state budget; cannot decide: %s", c.P.FnName(fn), what)
+			return false
+		}
 		c.Bad(rule, construct, target.Pos(), "in %s a path reaches the target without passing the guard (%s): %s",
 			c.P.FnName(fn), what, c.P.PathString(ps.Path))
 		return false
@@ -208,6 +212,12 @@ func IsParam(fn *ssa.Function, name string) func(ssa.Value) bool {
 		v = Strip(v)
 		if p, ok := v.(*ssa.Parameter); ok {
 			return p.Parent() == fn && p.Name() == name
+		}
+		// a parameter captured by a closure is spilled to a heap cell at entry
+		if ld, ok := v.(*ssa.UnOp); ok && ld.Op == token.MUL {
+			if a, ok := ld.X.(*ssa.Alloc); ok {
+				return SpilledParam(a) != nil && SpilledParam(a).Parent() == fn && SpilledParam(a).Name() == name
+			}
 		}
 		return false
 	}
